@@ -34,8 +34,9 @@ class _Entity:
 ENTITY = _Entity
 
 
-def line_reason(line, k):
-    """k = 0 for the first line of the paragraph."""
+def line_reason(line, k, setext=True):
+    """k = 0 for the first line of the paragraph; setext=False: the parser was told not to form setext headings
+    (Paragraph.parse_setext = False), so a line of '=' is paragraph text (a line of '-' is still a thematic break or a delimiter row)."""
     if line.strip(' \t') == '':
         return 'blank line'
     lead = line[:len(line) - len(line.lstrip(' \t'))]
@@ -71,7 +72,7 @@ def line_reason(line, k):
         return 'ordered list marker'       # only a list starting with 1 can interrupt a paragraph (5.2)
     if k == 0 and CODE.match(line):
         return 'indented code'
-    if k > 0 and SETEXT_OR_DELIM_ROW.match(line):
+    if k > 0 and SETEXT_OR_DELIM_ROW.match(line) and (setext or not re.fullmatch(r' {0,3}=+ *', line)):
         return 'setext underline / table delimiter row'
     if line.endswith('  ') or line.endswith('\\'):
         return 'hard line break'
@@ -85,9 +86,9 @@ def _delimiter_cells(line):
     return len(t.split('|'))
 
 
-def paragraph_reason(lines):
+def paragraph_reason(lines, setext=True):
     for k, line in enumerate(lines):
-        r = line_reason(line, k)
+        r = line_reason(line, k, setext)
         if r == 'setext underline / table delimiter row' and '|' in line and '|' not in lines[k - 1] and _delimiter_cells(line) >= 2:
             # GFM tables: "the header row must match the delimiter row in the number of cells" - a line without any pipe
             # is one cell, this delimiter row has more: no table (and with a pipe in it, no setext underline either)
